@@ -13,7 +13,7 @@ EPS = 2.220446049250313e-16
 RULE = (
     "all ordered pairs (F,G) of multisets of <= n lattice points (diagonal points included) x sigma in "
     "{0.1,0.4,1,10}; per pair: ALL row permutations of both diagrams, near-identical copies (one "
-    "coordinate moved by 1e-9 / 1e-13), added diagonal points, diagonal shifts, scalings; ALL triples "
+    "coordinate moved by 1e-9 / 1e-13), added diagonal points, diagonal shifts (-3.7, 1e3 and exact shifts by 2^17, 2^20, -2^24), scalings; ALL triples "
     "(triangle inequality) from the complete distance table per sigma; Wasserstein stability bound. "
     "state = (F,G,sigma); transition = one persim.heat call; non-trivial = F and G are the same multiset "
     "in a different row order, or differ by < 1e-8 (cancellation regime), or both non-empty and different."
@@ -114,12 +114,19 @@ def run_case(case, ctx):
                 ctx.violation("diagonal-points", "points on the diagonal change the heat distance", observed=r[0], expected=float(base),
                               extra={"F": F2, "G": G2, "sigma": sigma})
             # translation along the diagonal (also into negative coordinates)
-            for c in (-3.7, 1000.0):
+            for c in (-3.7, 1000.0, 131072.0, 1048576.0, -16777216.0):
                 F3, G3 = aff(F, 1.0, c), aff(G, 1.0, c)
                 r = check_val(ctx, "value-shift", h(ctx, F3, G3, sigma), F3, G3, sigma, "shift %r" % c)
-                if r is not None and abs(r[0] ** 2 - float(base) ** 2) > 4 * tol + 1e-12 * mass * (1 + abs(c)) * 8:
+                # shifts by a power of two keep every coordinate difference exact: no extra allowance
+                slack = 0.0 if float(c).is_integer() else 1e-12 * mass * (1 + abs(c)) * 8
+                if r is not None and abs(r[0] ** 2 - float(base) ** 2) > 4 * tol + slack:
                     ctx.violation("shift-invariance", "translation along the diagonal changes the heat distance",
                                   observed=r[0], expected=float(base), extra={"F": F3, "G": G3, "sigma": sigma})
+            # non-lattice coordinates far from the origin (integer coordinates would make even a
+            # cancelling |p|^2+|q|^2-2pq formulation exact): value against the oracle on the same floats
+            for c in (131072.0, 1048576.0):
+                F5, G5 = aff(F, 1.0 / 3.0, c), aff(G, 1.0 / 3.0, c)
+                check_val(ctx, "value-shift", h(ctx, F5, G5, sigma), F5, G5, sigma, "x/3 + %r" % c)
             # scaling points by a and sigma by a^2 scales the distance by 1/a
             for a in (0.1, 1e3):
                 F4, G4 = aff(F, a, 0.0), aff(G, a, 0.0)
